@@ -269,6 +269,19 @@ pub fn t3(prop: &str, seed: u64) -> RunDesc {
         }
         d.threads.push(thread(2, "upgrader", v));
     }
+    // one more upgrader acts while X's pop_edges is running (the monitor raises signal 9 then):
+    // by that time X is marked destructed, whatever path destructs it
+    let in_destructor = rng.chance(0.35);
+    if in_destructor {
+        d.cfg.signal_pop_class = 2;
+        let mut v = vec![o(K::Pin, 0, 0, 0, 0), o(K::LoadW, WROOT0, 0, 0, 0), o(K::WsCounted, 0, 0, 0, 0), o(K::Unpin, 0, 0, 0, 0), o(K::Await, 9, 0, 0, 0)];
+        if rng.chance(0.5) {
+            v.extend([o(K::Upgrade, 0, 1, 0, 0), o(K::DerefRc, 1, 0, 0, 0), o(K::DropRc, 1, 0, 0, 0)]);
+        } else {
+            v.extend([o(K::Pin, 1, 0, 0, 0), o(K::WSnapOf, 0, 1, 1, 0), o(K::WsUpgrade, 1, 1, 0, 0), o(K::DerefSnap, 1, 0, 0, 0), o(K::Unpin, 1, 0, 0, 0)]);
+        }
+        d.threads.push(thread(2, "upgrader-in-destructor", v));
+    }
     let mut retire = vec![o(K::Await, 1, 0, 0, 0), o(K::Pin, 0, 0, 0, 0), o(K::Store, ROOT1, NONE_SLOT, 0, 0), o(K::Flush, 0, 0, 0, 0), o(K::Unpin, 0, 0, 0, 0)];
     retire.extend(rounds(3 + rng.below(5) as usize));
     retire.push(o(K::Signal, 5, 0, 0, 0));
@@ -277,7 +290,7 @@ pub fn t3(prop: &str, seed: u64) -> RunDesc {
         let n = noise(&mut rng, 2, &d.cfg);
         d.threads.push(n);
     }
-    d.params = J::obj().set("template", "T3 upgrade racing destruction").set("child_in_parent", child_in_parent).set("link_age_rounds", age);
+    d.params = J::obj().set("template", "T3 upgrade racing destruction").set("child_in_parent", child_in_parent).set("link_age_rounds", age).set("upgrader_acts_during_pop_edges", in_destructor);
     d
 }
 
